@@ -649,6 +649,167 @@ def load_cases(ctx: Ctx, tree: dict, desc: dict) -> None:
         os.remove(mpath)
 
 
+# --------------------------------------------------------------------------- load(): nested models
+
+NEST_LOCS = ["f", "d/f", "link_in", "../outside/canary", "$R/outside/canary", "link_out", "hard", "dlink_out/f", "../basex/f"]
+
+
+def build_nested_model(R: str):
+    """A model whose external tensors sit at every kind of position: main-graph initializers, TENSOR and
+    TENSORS attributes of main-graph nodes, initializers and node attributes of subgraphs (GRAPH attributes
+    of If/Loop nodes and a GRAPHS attribute) at depth 1, 2 and 3.  Returns (model, description tree for the
+    Lean walker model, list of tensor names)."""
+    import onnx_ir as ir
+
+    names: list[str] = []
+
+    def ext(pos: str, k: int):
+        loc = NEST_LOCS[k].replace("$R", R)
+        name = f"{pos}#{k}"
+        names.append(name)
+        return ir.ExternalTensor(loc, 0, NBYTES, ir.DataType.UINT8, shape=ir.Shape([NBYTES]), name=name)
+
+    def inits(pos: str):
+        vals = []
+        for k in range(len(NEST_LOCS)):
+            t = ext(pos, k)
+            vals.append(ir.Value(name=t.name, const_value=t, shape=ir.Shape([NBYTES]), type=ir.TensorType(ir.DataType.UINT8)))
+        return vals
+
+    def tensor_nodes(pos: str):
+        """one Constant-like node per location (TENSOR attribute) + one node with a TENSORS attribute"""
+        nodes, desc = [], []
+        for k in range(len(NEST_LOCS)):
+            t = ext(pos + ".tattr", k)
+            nodes.append(ir.Node("", "Constant", [], [ir.AttrTensor("value", t)], num_outputs=1, name=f"{pos}.c{k}"))
+            desc.append({"t": [t.name], "g": []})
+        ts = [ext(pos + ".tsattr", k) for k in range(len(NEST_LOCS))]
+        nodes.append(ir.Node("test", "ManyTensors", [], [ir.AttrTensors("values", ts)], num_outputs=1, name=f"{pos}.many"))
+        desc.append({"t": [t.name for t in ts], "g": []})
+        return nodes, desc
+
+    def graph(pos: str, depth: int, maxdepth: int):
+        iv = inits(pos + ".init")
+        nodes, ndesc = tensor_nodes(pos)
+        if depth < maxdepth:
+            then_g, then_d = graph(pos + ".then", depth + 1, maxdepth)
+            else_g, else_d = graph(pos + ".else", depth + 1, depth + 1)  # the else branch does not nest further
+            nodes.append(ir.Node("", "If", [], [ir.AttrGraph("then_branch", then_g), ir.AttrGraph("else_branch", else_g)], num_outputs=1, name=f"{pos}.if"))
+            ndesc.append({"t": [], "g": [then_d, else_d]})
+            if depth == 0:
+                g1, d1 = graph(pos + ".gs0", depth + 1, depth + 1)
+                g2, d2 = graph(pos + ".gs1", depth + 1, depth + 2)
+                nodes.append(ir.Node("test", "ManyGraphs", [], [ir.AttrGraphs("bodies", [g1, g2])], num_outputs=1, name=f"{pos}.graphs"))
+                ndesc.append({"t": [], "g": [d1, d2]})
+                body, bd = graph(pos + ".loop", depth + 1, depth + 1)
+                nodes.append(ir.Node("", "Loop", [], [ir.AttrGraph("body", body)], num_outputs=1, name=f"{pos}.loop"))
+                ndesc.append({"t": [], "g": [bd]})
+        g = ir.Graph([], [], nodes=nodes, initializers=iv, name=pos, opset_imports={"": 20, "test": 1} if depth == 0 else None)
+        return g, {"i": [v.name for v in iv], "n": ndesc}
+
+    g, d = graph("main", 0, 3)
+    return ir.Model(g, ir_version=10), d, names
+
+
+def every_external_tensor(graph) -> dict:
+    """Independent of onnx_ir's own walkers: every ExternalTensor reachable anywhere below `graph`."""
+    import onnx_ir as ir
+
+    found: dict = {}
+    stack = [graph]
+    while stack:
+        g = stack.pop()
+        for v in g.initializers.values():
+            if isinstance(v.const_value, ir.ExternalTensor):
+                found[v.const_value.name] = v.const_value
+        for node in g:
+            for a in node.attributes.values():
+                if a.type == ir.AttributeType.TENSOR and isinstance(a.value, ir.ExternalTensor):
+                    found[a.value.name] = a.value
+                elif a.type == ir.AttributeType.TENSORS:
+                    for t in a.value:
+                        if isinstance(t, ir.ExternalTensor):
+                            found[t.name] = t
+                elif a.type == ir.AttributeType.GRAPH:
+                    stack.append(a.value)
+                elif a.type == ir.AttributeType.GRAPHS:
+                    stack.extend(a.value)
+    return found
+
+
+def nested_load_cases(ctx: Ctx, tree: dict, desc: dict) -> None:
+    """ir.load of a model with external tensors at every nesting position: EVERY reachable external tensor must
+    get the non-empty model-directory base and must then accept/reject like the model."""
+    import onnx_ir as ir
+
+    R = tree["R"]
+    b = R + "/base"
+    model, wdesc, names = build_nested_model(R)
+    mpath = os.path.join(b, "nested.onnx")
+    ir.save(model, mpath)
+    desc_m = describe_tree(R)
+    rname = os.path.basename(R)
+    spellings = [
+        {"cwd": R, "path": mpath, "kind": "abs"},
+        {"cwd": R, "path": "base/nested.onnx", "kind": "rel"},
+        {"cwd": b, "path": "nested.onnx", "kind": "bare"},
+        {"cwd": b, "path": "./nested.onnx", "kind": "dot-bare"},
+        {"cwd": R, "path": "blink//nested.onnx", "kind": "via-symlink"},
+        {"cwd": b + "/d", "path": "../nested.onnx", "kind": "dotdot"},
+        {"cwd": R + "/outside", "path": f"../../{rname}/base/nested.onnx", "kind": "from-outside"},
+    ]
+    # the walker of the Lean model on the same nesting tree: which tensors does set_base_dir reach?
+    wout = lean_batch([{"m": "path.walker", "tree": wdesc}])[0]
+    model_reached = set(wout.get("walker", []))
+    model_all = set(wout.get("reach", []))
+    if "walker" not in wout:
+        ctx.disagree("model error (walker)", {"nested": True}, wout, None)
+    old = os.getcwd()
+    try:
+        for si, sp in enumerate(spellings):
+            os.chdir(sp["cwd"])
+            lb = lean_batch([{"m": "path.loadbase", "p": sp["path"]}])[0].get("r")
+            m = ir.load(sp["path"])
+            tensors = every_external_tensor(m.graph)
+            if set(tensors) != set(names):
+                ctx.disagree("nested model: tensors found after load differ from those saved", {"load": sp}, sorted(set(names) ^ set(tensors))[:5], None)
+            if si == 0:
+                # the real walker vs the model walker vs full reachability
+                real_reached = {t.name for t in ir.external_data._all_tensors(m.graph, include_attributes=True) if isinstance(t, ir.ExternalTensor)}
+                if real_reached != model_reached:
+                    ctx.disagree("_all_tensors reaches other tensors than the model walker", {"load": sp}, sorted(model_reached ^ real_reached)[:8], None)
+                if model_all != set(names):
+                    ctx.disagree("model reach differs from the tensors of the model", {"load": sp}, sorted(model_all ^ set(names))[:8], None)
+            queries, obs_l = [], []
+            for k, name in enumerate(sorted(tensors)):
+                t = tensors[name]
+                pos = name.split("#")[0]
+                poskind = ("init" if ".init" in pos else "tensors-attr" if pos.endswith(".tsattr") else "tensor-attr") + f"-depth{pos.count('.then') + pos.count('.else') + pos.count('.gs') + pos.count('.loop')}"
+                got_base = os.fspath(t.base_dir)
+                ep = ENTRY_POINTS[(k + si) % len(ENTRY_POINTS)]
+                case = {"cwd": sp["cwd"], "base": got_base, "loc": os.fspath(t.location), "ep": ep, "via": "nested-load-" + sp["kind"],
+                        "model_path": sp["path"], "position": pos}
+                if got_base == "":
+                    ctx.fail(f"load-empty-base:{poskind}", "after ir.load an external tensor of the model still has an empty base directory: "
+                             "its containment checks are disabled and its location resolves against the cwd", case)
+                elif got_base != lb:
+                    ctx.disagree("nested load: base_dir differs from the model's derivation", case, lb, got_base)
+                obs = real_read(t, ep, tree["scratch"], R)
+                oracle(ctx, tree, desc, case, obs, b)
+                ctx.case(["nested-load", sp["kind"], name, ep], nested_position=poskind, nested_outcome=(obs["r"] if obs["r"] == "ok" else "raised-" + obs.get("layer", "?")))
+                queries.append([lb or "", case["loc"], 0, NBYTES, ep])
+                obs_l.append((case, obs))
+            mo = lean_batch([{"m": "path.reads", "fs": fs_json(desc_m), "cwd": sp["cwd"], "kfuel": KFUEL, "fuel": PFUEL, "queries": queries}])[0]
+            if "r" not in mo:
+                ctx.disagree("model error", {"load": sp}, mo, None)
+            else:
+                for (case, obs), o in zip(obs_l, mo["r"]):
+                    compare(ctx, case, obs, o, {}, R)
+    finally:
+        os.chdir(old)
+        os.remove(mpath)
+
+
 # --------------------------------------------------------------------------- run
 
 
@@ -755,6 +916,7 @@ def _run(ctx: Ctx) -> None:
         for p in pmap(_realpath_work, rp_jobs):
             ctx.merge(p)
         load_cases(ctx, tree, desc)
+        nested_load_cases(ctx, tree, desc)
         odd_cases(ctx, tree, desc)
         stateful_sequences(ctx)
         random_trees(ctx)
